@@ -1,5 +1,220 @@
-"""C04 - Target errors stop drawing immediately and are returned unchanged  (metadata; generators live here and/or in props/C04_*.py parts)"""
-CLAIMED = False   # set True by the owner once ./check C04 passes with real theorems
+"""C04 - Target errors stop drawing immediately and are returned unchanged."""
+from common import *
+
 LEVEL = 'proof'
-LEVEL_TEXT = 'TODO'
-LEVEL_NOTE = 'TODO'
+NEEDS_ERRFLOW = True     # ./check runs translate/errflow/run.sh (regenerates coq/Gen/ErrFlow.v from $EG_REPO)
+RULE = ('translator: translate/errflow (syn) re-reads every anchored file of $EG_REPO on every run and regenerates the '
+        'control-flow skeleton of every function returning Result<_, *::Error>; Properties/C04.v decides by vm_compute that every '
+        'call site of a propagating function is Propagated (?, tail, return) and nothing is Other. '
+        'search (implementation only): p_errflow = every drawable family (styled rectangle solid+dotted / circle / ellipse / rounded '
+        'rectangle / triangle / line / polyline thin+thick+translated / arc / sector, Image of ImageRaw, SubImage, SubImage of SubImage, '
+        'Text single and multi line with background, decorations, character spacing, alignments, Pixel iterators, Pixel::draw, clear) '
+        'x adapter stacks (none, clipped, cropped, translated, color_converted, nested up to depth 5, run-time built) '
+        'x {native target, draw_iter-only target} x {Rgb565, Rgb888}; for EVERY k < n (n = calls of the fault-free run) the k-th call '
+        'fails with error value k: draw must return Err(k), the log must end with the failing call and equal the fault-free prefix '
+        '(calls compared with all arguments, pixel lists and colour streams included). Fixed grid + random drawables/stacks from VERIF_SEED.')
+EXHAUSTIVE = {'quick': False, 'thorough': False}
+ASSUMPTIONS = ['the underlying target and any callee outside the anchored files (foreign ImageDrawable / TextRenderer / DrawTarget '
+               'implementations) themselves stop at their first failing call and return its error (assume/guarantee: the theorem is '
+               'about the library code between the caller and the target)',
+               'panics are not errors: a panicking path (unreachable!(), overflow) is outside C04']
+TRUSTED = ['modelled, not verified: the translator translate/errflow (Rust, syn 2): its recognition of a propagating call by method/function '
+           'name (set recomputed from the signatures on every run) and of the disposition of the call\'s Result; dynamic dispatch is '
+           'over-approximated in the Coq semantics (a call may resolve to ANY anchored function of that name, to the underlying target, '
+           'or to a compliant foreign callee)',
+           'completeness of the call-site recognition is self-checked per function by an independent token census (`name(` tokens with a '
+           'propagating name = translated call sites, else Other); a callee NOT defined in the scanned tree (closure parameter, foreign trait '
+           'method) is recognised only in result / `?` position, a discarded Result of such a callee is visible to the dynamic sweep only',
+           'code inside macro_rules! bodies is not parsed; the translator fails closed if such a body contains `.name(` with a propagating name']
+PARTIAL = []
+
+
+def trivial(line, res):
+    return res in ('', 'none', '0')
+
+
+# ---------------------------------------------------------------------------------------------- spec builders
+def st(fill='-', stroke='-', width=1, align=1, dotted=0):
+    return J(fill, stroke, width, align, dotted)
+
+
+def hexs(s):
+    return s.encode('utf-8').hex() if s else '-'
+
+
+def text(s, font=0, tc=7, bg='-', ul=0, sk=0, align=0, base=3, lh=0, x=4, y=12):
+    return J('text', font, tc, bg, ul, sk, align, base, lh, x, y, hexs(s))
+
+
+def rend(mode, width, s, **kw):
+    return J('rend', mode, width, *text(s, **kw).split(' ')[1:])
+
+
+def image(kind, w, h, x, y, sub=(0, 0, 0, 0), sub2=(0, 0, 0, 0)):
+    return J('image', kind, w, h, x, y, *sub, *sub2)
+
+
+STYLES = [
+    st(fill=3), st(stroke=5, width=1), st(stroke=5, width=3), st(fill=3, stroke=5, width=2),
+    st(fill=3, stroke=5, width=4, align=0), st(fill=3, stroke=5, width=3, align=2), st(stroke=9, width=0, fill=2),
+    st(stroke=5, width=7, align=1), st(),
+]
+DOTTED = [st(stroke=5, width=2, dotted=1), st(fill=4, stroke=5, width=5, dotted=1), st(stroke=6, width=1, dotted=1, align=0),
+          st(stroke=6, width=9, dotted=1, align=2)]
+
+STACKS = [
+    '-', 'cl:2:1:30:25', 'cr:3:2:40:30', 'tr:5:-3', 'cc',
+    'tr:2:3,cl:0:0:30:30', 'cl:-5:-5:50:40,cr:4:4:30:30,tr:-2:1', 'cc,tr:1:1,cl:0:0:40:40',
+    'cr:0:0:50:50,cc,cl:5:5:20:20,tr:3:3,cr:1:1:30:30', 'cl:0:0:0:0', 'cl:8:8:9:7,cl:10:9:20:20', 'tr:-7:4,tr:3:3,cc,cc',
+]
+BASES = ['nat565', 'iter565', 'nat888', 'iter888']
+
+
+def fixed_drawables():
+    out = []
+    for s in STYLES + DOTTED:
+        out.append(J('rect', 3, 2, 20, 14, s))
+        out.append(J('circle', 2, 3, 17, s))
+        out.append(J('ellipse', 1, 2, 23, 14, s))
+        out.append(J('rrect', 2, 2, 26, 18, 4, 4, 6, 3, 5, 5, 2, 7, s))
+        out.append(J('tri', 2, 3, 28, 9, 11, 24, s))
+        out.append(J('line', 1, 2, 25, 17, s))
+        out.append(J('poly', 4, 0, 0, 12, 9, 20, 2, 28, 16, 0, 0, s))
+        out.append(J('poly', 4, 0, 0, 12, 9, 20, 2, 28, 16, 3, 4, s))
+        out.append(J('arc', 2, 2, 21, 20, 230, s))
+        out.append(J('sector', 2, 2, 21, -30, 250, s))
+    out += [J('rect', 0, 0, 0, 0, st(fill=1, stroke=2, width=2)), J('circle', 5, 5, 0, st(fill=1)), J('circle', 5, 5, 1, st(fill=1, stroke=2)),
+            J('rect', 1, 1, 12, 3, st(stroke=2, width=5)), J('rect', -30, -30, 90, 70, st(fill=1, stroke=2, width=3)),
+            J('poly', 1, 3, 3, 0, 0, st(stroke=2, width=4)), J('poly', 0, 0, 0, st(stroke=2, width=4)),
+            J('rect', 2, 2, 40, 30, st(stroke=5, width=3, dotted=1)), J('rect', 2, 2, 41, 33, st(stroke=5, width=6, dotted=1, fill=2))]
+    # images
+    out += [image(0, 9, 7, 3, 2), image(3, 8, 8, 10, 10), image(0, 0, 0, 1, 1), image(1, 12, 10, 2, 3, (2, 1, 7, 6)),
+            image(1, 12, 10, 2, 3, (8, 6, 9, 9)), image(2, 12, 10, -2, 3, (1, 1, 10, 8), (2, 2, 5, 4)),
+            image(2, 12, 10, 2, 3, (1, 1, 10, 8), (7, 7, 5, 4)), image(0, 40, 30, -20, -15)]
+    # text
+    out += [text('Hello'), text('Hello World', bg=2), text('ab\ncd\n\nef', bg=2, ul=1, sk=9), text('a b  c', font=2, bg=3, ul=1),
+            text('spaced out', font=3, bg=3, sk=1, tc='-'), text('xy\r\nz', font=2, tc=4, bg='-', ul=6, align=1),
+            text('right\naligned text', align=2, base=0, ul=1, lh=14), text('mid', align=1, base=2, sk=1, lh=-150, bg=1),
+            text('', bg=1, ul=1), text('\n\n', bg=1, ul=1), text('näïve §', font=4, bg=5, ul=1, sk=1),
+            text('BIG 10x20', font=5, bg=5, ul=3, sk=4, base=1), text('only decoration', tc='-', bg='-', ul=5, sk=6),
+            text('clipped text that is long enough to leave the target', bg=2, ul=1, x=-10, y=5),
+            text('invisible', tc='-', bg='-')]
+    # TextRenderer API used directly (draw_whitespace is not reachable through Text)
+    out += [rend(1, 9, '', bg=2, ul=1, sk=5), rend(1, 9, '', bg='-', ul=1, sk=1), rend(1, 5, '', bg=3), rend(1, 0, '', bg=3, ul=1),
+            rend(1, 7, '', tc='-', bg='-', ul=4), rend(0, 0, 'ab c', bg=2, ul=1, font=2), rend(2, 6, 'xy', bg=2, ul=1, sk=1),
+            rend(2, 4, 'q', tc=3, bg='-', sk=8, base=1, font=3), rend(1, 300, '', bg=2, sk=1, x=-100)]
+    # pixel iterators / Pixel::draw / clear
+    px = [(1, 1, 3), (2, 5, 4), (40, 40, 5), (-3, 2, 6), (7, 7, 7), (100, 100, 8)]
+    flat = ' '.join(J(*p) for p in px)
+    out += [J('pixels', m, len(px), flat) for m in (0, 1, 2)] + [J('pixels', 0, 0), J('pixels', 2, 0), J('clear', 9)]
+    return out
+
+
+def rnd_style(rng):
+    fill = rng.choice(['-', rng.randrange(1, 60)])
+    stroke = rng.choice(['-', rng.randrange(1, 60), rng.randrange(1, 60)])
+    return st(fill, stroke, rng.choice([0, 1, 1, 2, 3, 4, 6, 9]), rng.randrange(3), 1 if rng.random() < 0.2 else 0)
+
+
+def rnd_rect(rng, lo=-8, hi=30, m=26):
+    return (rng.randrange(lo, hi), rng.randrange(lo, hi), rng.choice([0, 1, rng.randrange(0, m), rng.randrange(0, m)]),
+            rng.choice([0, 1, rng.randrange(0, m), rng.randrange(0, m)]))
+
+
+def rnd_drawable(rng):
+    k = rng.randrange(15)
+    p = lambda: (rng.randrange(-6, 34), rng.randrange(-6, 30))
+    s = rnd_style(rng)
+    if k == 0:
+        return J('rect', *rnd_rect(rng), s)
+    if k == 1:
+        return J('circle', *p(), rng.randrange(0, 28), s)
+    if k == 2:
+        return J('ellipse', *rnd_rect(rng), s)
+    if k == 3:
+        r = rnd_rect(rng)
+        return J('rrect', *r, *[rng.randrange(0, 12) for _ in range(8)], s)
+    if k == 4:
+        return J('tri', *p(), *p(), *p(), s)
+    if k == 5:
+        return J('line', *p(), *p(), s)
+    if k == 6:
+        n = rng.randrange(0, 6)
+        pts = [c for _ in range(n) for c in p()]
+        return J('poly', n, *pts, *rng.choice([(0, 0), (rng.randrange(-4, 5), rng.randrange(-4, 5))]), s)
+    if k == 7:
+        return J('arc', *p(), rng.randrange(0, 26), rng.randrange(-360, 361), rng.randrange(-400, 401), s)
+    if k == 8:
+        return J('sector', *p(), rng.randrange(0, 26), rng.randrange(-360, 361), rng.randrange(-400, 401), s)
+    if k == 9:
+        w, h = rng.randrange(0, 14), rng.randrange(0, 12)
+        return image(rng.randrange(4), w, h, *p(), rnd_rect(rng, -2, 8, 12), rnd_rect(rng, -2, 6, 8))
+    if k == 14:
+        o = lambda: rng.choice(['-', rng.randrange(1, 40)])
+        s_ = ''.join(rng.choice('abXY 01 ') for _ in range(rng.randrange(0, 6)))
+        return rend(rng.randrange(3), rng.choice([0, 1, 5, 12, 40]), s_, font=rng.randrange(6), tc=o(), bg=o(), ul=rng.choice([0, 1, 17]),
+                    sk=rng.choice([0, 1, 23]), base=rng.randrange(4), x=p()[0], y=p()[1])
+    if k in (10, 11, 12):
+        alpha = 'abcXYZ 019.,  \n\n\r' + 'éß'
+        s_ = ''.join(rng.choice(alpha) for _ in range(rng.randrange(0, 18)))
+        o = lambda: rng.choice(['-', rng.randrange(1, 40)])
+        return text(s_, font=rng.randrange(6), tc=o(), bg=o(), ul=rng.choice([0, 0, 1, 17]), sk=rng.choice([0, 0, 1, 23]),
+                    align=rng.randrange(3), base=rng.randrange(4), lh=rng.choice([0, 0, 9, 25, -50, -200]), x=p()[0], y=p()[1])
+    n = rng.randrange(0, 9)
+    return J('pixels', rng.randrange(3), n, *[c for _ in range(n) for c in (*p(), rng.randrange(1, 30))])
+
+
+def rnd_stack(rng):
+    d = rng.choice([0, 1, 1, 2, 2, 3, 4, 6])
+    parts = []
+    for _ in range(d):
+        k = rng.randrange(4)
+        if k == 0:
+            parts.append('cl:%d:%d:%d:%d' % rnd_rect(rng, -10, 20, 60))
+        elif k == 1:
+            parts.append('cr:%d:%d:%d:%d' % rnd_rect(rng, -10, 20, 60))
+        elif k == 2:
+            parts.append('tr:%d:%d' % (rng.randrange(-9, 10), rng.randrange(-9, 10)))
+        else:
+            parts.append('cc')
+    return ','.join(parts) if parts else '-'
+
+
+def cases(tier, rng):
+    return iter(())
+
+
+def search(tier, rng):
+    fx = fixed_drawables()
+    for d in fx:
+        for b in BASES:
+            for s in STACKS:
+                if tier == 'quick' and b.endswith('888') and s not in ('-', 'cc', 'cc,tr:1:1,cl:0:0:40:40'):
+                    continue
+                yield J('p_errflow', b, s, d)
+    n = 1500 if tier == 'quick' else 40000
+    for _ in range(n):
+        yield J('p_errflow', rng.choice(BASES), rnd_stack(rng), rnd_drawable(rng))
+
+
+LEVEL_TEXT = ('Proof: the generic Coq theorem C04_propagating_stops (coq/Proofs/Errlang.v, induction over skeletons incl. loops, then over the '
+              'call depth) says: in ANY table of function skeletons in which every call site is Propagated and nothing is Other, for every entry '
+              'function, every oracle (loop counts, branch choices, dynamic dispatch of every call to the underlying target or to ANY translated '
+              'function of that name) and every k < n (n = calls of the fault-free run), the run whose k-th target call fails with e returns Err e '
+              'unchanged and its log is exactly the first k fault-free calls plus the failing call, nothing after it; a fault at k >= n changes '
+              'nothing. Per run, translate/errflow (Rust, syn) regenerates the skeleton of EVERY function in src/ and core/src/ returning '
+              'Result<_, X::Error> (59 functions, 79 call sites, 16 names) and C04_repo_offending_sites_none / C04_repo_errflow_ok / '
+              'C04_repo_no_other decide by vm_compute that all sites are Propagated (?, tail expression, return) - so a `let _ =`, `;`, `.ok()`, '
+              '`.unwrap_or..`, a result bound to a variable, a closure/macro/helper that swallows, map_err, a hand-made Err breaks a theorem; '
+              'C04_repo_errors_stop_drawing is the instance for the repository table. The dynamic sweep p_errflow (implementation only) fails '
+              'every k < n on the real code for every drawable family x adapter stack x {native, draw_iter-only} target and supplies the '
+              'concrete (drawable, stack, k) replay.')
+LEVEL_NOTE = ('The theorem is about the skeleton semantics (coq/Model/Errlang.v), not about Rust: the translator (call recognition by name, '
+              'classification of what happens to each Result) is modelled, not verified; it fails closed (unknown shapes -> Other -> theorem breaks; '
+              'unparseable file / macro_rules body calling a propagating method -> translator error -> VIOLATION). Control decisions are an oracle '
+              'shared by the fault-free and the faulted run (they do not depend on the Ok value of target calls, which is ()); foreign callees are '
+              'atomic leaves assumed compliant; panics are outside C04. 14 seeded mutations (dropped ?, .ok() on one border only, deferred error in '
+              'Text::draw, retry, call after the failure, stroke-only discard, swallowing adapter / trait default / helper / closure / nested fn, '
+              'map_err, continue-after-error) are all reported as VIOLATION, 13 of them with a concrete failing (drawable, stack, k) from the sweep; '
+              'a benign refactor (new propagating helper) stays OK.')
+CLAIMED = True
